@@ -49,6 +49,22 @@ static int op_surj_parse(void) {
     out_surjproof(&p);
     return 1;
 }
+/* surj_parse_len <bytes> <claimed_len> -> as surj_parse: the parser is told `claimed_len` (any size_t, also >= 2^32) while the buffer is a
+   complete canonical encoding (the harness checks that it parses with its true length first), so nothing beyond it is read */
+static int op_surj_parse_len(void) {
+    secp256k1_surjectionproof p; int ret; size_t claimed;
+    NEED(2); NEEDANYHEX(0);
+    claimed = (size_t)strtoull(A(1)->s, NULL, 10);
+    if (!tok_surjproof(0, &p)) return -1;
+    surj_prior(&p);
+    ret = secp256k1_surjectionproof_parse(CTX, &p, A(0)->b, claimed);
+    out_int(ret);
+    out_int((long long)secp256k1_surjectionproof_n_total_inputs(CTX, &p));
+    out_int((long long)secp256k1_surjectionproof_n_used_inputs(CTX, &p));
+    out_int((long long)secp256k1_surjectionproof_serialized_size(CTX, &p));
+    out_surjproof(&p);
+    return 1;
+}
 /* surj_serialize <proof_ser> <outlen> -> ret outlen bytes */
 static int op_surj_serialize(void) {
     secp256k1_surjectionproof p; int ret; size_t len; unsigned char *buf;
@@ -121,7 +137,7 @@ static int op_surj_verify(void) {
 }
 static int ops_surjection(const char *op) {
 #define OP(name, call) if (!strcmp(op, name)) return call;
-    OP("surj_parse", op_surj_parse()) OP("surj_serialize", op_surj_serialize())
+    OP("surj_parse", op_surj_parse()) OP("surj_parse_len", op_surj_parse_len()) OP("surj_serialize", op_surj_serialize())
     OP("surj_initialize", op_surj_initialize()) OP("surj_generate", op_surj_generate())
     OP("surj_verify", op_surj_verify())
 #undef OP
